@@ -1,11 +1,13 @@
 package main
 
 import (
+	"encoding/hex"
 	"fmt"
 	"io"
 	"os"
 	"strconv"
 	"strings"
+	"sync/atomic"
 	"time"
 
 	"github.com/openziti/storage/boltz"
@@ -391,6 +393,124 @@ func c17GenStagedFixed(out io.Writer, tier string) {
 			for _, rd := range []string{"-:w:d", "-:32768:s", "-:1048577:d"} {
 				fmt.Fprintf(out, "seq tx:p0.1:c snap:0 rest:0 tx:p1.5/p3.4:c snap:1 tx:p0.3:c restc:1:%s:%s=gsid;%s=gtl~d~1 gsid gtl:d:1 dump\n", rd, p, p)
 			}
+		}
+	}
+}
+
+// ------------------------------------------------------------------ concurrent GetTimelineId requests
+
+// tlconc <K> <modes> <pre>: after a restore of a marked snapshot (pre = 1: the snapshot already carries a timeline
+// id), K goroutines call GetTimelineId(mode_i, idF) released together (modes d / i only: a forced reset is allowed
+// to generate).  The first idF call keeps its caller's write transaction open until every request has entered idF
+// or 200 ms have passed — on this code the others are waiting for bbolt's writer lock by then, having decided
+// nothing yet; a GetTimelineId that decides in an earlier transaction has decided by then.  A tx-complete listener
+// pauses 3 ms after every commit (outside bbolt's writer lock), which opens the window between two transactions
+// of one request.
+// -> ok (one idF call, every request returned that id, it is the stored one, a later request returns it too)
+//
+//	| tlrace:calls=<n>:ids=<distinct returned>:stored=<T..>
+func c17TlConc(k int, modes string, pre string) string {
+	e, err := c17Open()
+	if err != nil {
+		return "setup-failed"
+	}
+	defer e.close()
+	if e.op("tx:p0.1/p4.2:c") != "ok" {
+		return "setup-failed"
+	}
+	var calls, started atomic.Int64
+	base := int64(0)
+	if pre == "1" {
+		if _, err := e.db.GetTimelineId(boltz.TimelineModeInitIfEmpty, func() (string, error) { return "T1", nil }); err != nil {
+			return "setup-failed"
+		}
+		base = 1
+	}
+	if !strings.HasPrefix(e.op("snap:0"), "snapped") || e.op("tx:p0.3:c") != "ok" || !strings.HasPrefix(e.op("rest:0"), "restored") {
+		return "setup-failed"
+	}
+	// every Update commit of this Db is followed (after bbolt released its writer lock, before the committing
+	// request goes on) by a short pause: a request that acts in SEVERAL transactions lets the others in between them
+	e.db.AddTxCompleteListener(func(boltz.MutateContext) { time.Sleep(3 * time.Millisecond) })
+	idF := func() (string, error) {
+		n := calls.Add(1)
+		if n == 1 {
+			deadline := time.Now().Add(200 * time.Millisecond)
+			for time.Now().Before(deadline) && (started.Load() < int64(k) || calls.Load() < int64(k)) {
+				time.Sleep(time.Millisecond)
+			}
+		}
+		return fmt.Sprintf("T%d", base+n), nil
+	}
+	release := make(chan struct{})
+	type res struct {
+		id  string
+		err error
+	}
+	results := make(chan res, k)
+	for i := 0; i < k; i++ {
+		mode := boltz.TimelineModeDefault
+		if i < len(modes) && modes[i] == 'i' {
+			mode = boltz.TimelineModeInitIfEmpty
+		}
+		go func() {
+			defer func() {
+				if rec := recover(); rec != nil {
+					results <- res{err: fmt.Errorf("panic: %v", rec)}
+				}
+			}()
+			<-release
+			started.Add(1)
+			id, err := e.db.GetTimelineId(mode, idF)
+			results <- res{id, err}
+		}()
+	}
+	close(release)
+	ids := map[string]bool{}
+	for i := 0; i < k; i++ {
+		select {
+		case r := <-results:
+			if r.err != nil {
+				return "txerr:gtl:" + hex.EncodeToString([]byte(r.err.Error()))
+			}
+			ids[r.id] = true
+		case <-time.After(4 * c17Watchdog):
+			e.dead = true
+			_ = os.RemoveAll(e.dir)
+			return "hang:" + c17LockStacks()
+		}
+	}
+	stored := "-"
+	_ = e.db.View(func(tx *bbolt.Tx) error {
+		if b := boltz.Path(tx, boltz.Metadata); b != nil {
+			if s := b.GetString(boltz.TimelineId); s != nil {
+				stored = *s
+			}
+		}
+		return nil
+	})
+	later, err := e.db.GetTimelineId(boltz.TimelineModeDefault, idF)
+	if err != nil {
+		return "txerr:gtl:" + hex.EncodeToString([]byte(err.Error()))
+	}
+	ids[later] = true
+	want := fmt.Sprintf("T%d", base+1)
+	if calls.Load() == 1 && len(ids) == 1 && ids[want] && stored == want {
+		return "ok"
+	}
+	return fmt.Sprintf("tlrace:calls=%d:ids=%d:stored=%s", calls.Load(), len(ids), stored)
+}
+
+func c17GenTlConc(out io.Writer, tier string, r *rng) {
+	fmt.Fprintf(out, "tlconc 2 dd 1\ntlconc 4 ddii 1\ntlconc 3 iii 0\ntlconc 8 dididddi 0\n")
+	if tier == "thorough" {
+		for i := 0; i < 20; i++ {
+			k := 2 + r.intn(7)
+			modes := ""
+			for j := 0; j < k; j++ {
+				modes += pick(r, []string{"d", "i"})
+			}
+			fmt.Fprintf(out, "tlconc %d %s %d\n", k, modes, r.intn(2))
 		}
 	}
 }
